@@ -39,10 +39,14 @@ def applySet {T : WalT} (v : WVer T) (s : WSet T) : Option (WVer T) :=
 structure Scope (T : WalT) where
   wals : List (Nat × WSet T) := []
   snapshot : Option (WVer T) := none
+  /-- disk back-end only: the scope directory exists without any key in it.  `store` creates
+  the directory before it writes the temporary file, so a failed first write leaves it
+  behind, and `has_scope` (= `WalStore::has`) then says the entity exists. -/
+  emptyDir : Bool := false
 
 def Scope.getWal {T : WalT} (s : Scope T) (n : Nat) : Option (WSet T) := alookup s.wals n
 def Scope.fuel {T : WalT} (s : Scope T) : Nat := keyBound s.wals + 1
-def Scope.exists {T : WalT} (s : Scope T) : Bool := s.snapshot.isSome || !s.wals.isEmpty
+def Scope.exists {T : WalT} (s : Scope T) : Bool := s.snapshot.isSome || !s.wals.isEmpty || s.emptyDir
 
 structure Ent (T : WalT) where
   kv : Scope T := {}
@@ -127,7 +131,7 @@ def phSnapshot {T : WalT} (snap wfail : Bool) (p : Ent T × Local T) : Ent T × 
   | .processed v _ =>
     if snap then
       if wfail then (p.1, .done .kvErr)
-      else ({ p.1 with kv := { wals := [], snapshot := some v } }, p.2)
+      else ({ p.1 with kv := { wals := [], snapshot := some v, emptyDir := false } }, p.2)
     else p
   | _ => p
 
@@ -155,10 +159,14 @@ def getLatest {T : WalT} (e : Ent T) (i : Nat) := execOpt e i none false false
 def updateSnapshot {T : WalT} (e : Ent T) (i : Nat) (wfail : Bool := false) :=
   execOpt e i none true wfail
 
-/-- `add` (wal.rs:168-184). -/
-def add {T : WalT} (e : Ent T) (i : Nat) (inst : WVer T) (wfail : Bool := false) : Ent T × Out T :=
-  if wfail then (e, .kvErr)
-  else ({ kv := { e.kv with snapshot := some inst }, cache := ainsert e.cache i inst }, .ok inst)
+/-- `add` (wal.rs:168-184).  `disk`: on the disk back-end a failed write has already created
+the scope directory. -/
+def add {T : WalT} (e : Ent T) (i : Nat) (inst : WVer T) (wfail : Bool := false)
+    (disk : Bool := false) : Ent T × Out T :=
+  if wfail then
+    ({ e with kv := { e.kv with emptyDir := e.kv.emptyDir || (disk && !e.kv.exists) } }, .kvErr)
+  else ({ kv := { e.kv with snapshot := some inst, emptyDir := false },
+          cache := ainsert e.cache i inst }, .ok inst)
 
 /-- `remove` (wal.rs:205-217); `none` = `Unknown`. -/
 def remove {T : WalT} (e : Ent T) (i : Nat) : Option (Ent T) :=
@@ -169,14 +177,14 @@ def restart {T : WalT} (e : Ent T) (i : Nat) : Ent T := { e with cache := aerase
 def loadFresh {T : WalT} (e : Ent T) : Out T := (getLatest { e with cache := [] } 0).2
 
 inductive Op (T : WalT) where
-  | add (i : Nat) (inst : WVer T) (wfail : Bool)
+  | add (i : Nat) (inst : WVer T) (wfail disk : Bool)
   | cmd (i : Nat) (c : T.Cmd) (wfail : Bool)
   | get (i : Nat)
   | snap (i : Nat) (wfail : Bool)
   | restart (i : Nat)
 
 def step {T : WalT} (e : Ent T) : Op T → Ent T × Option (Out T)
-  | .add i inst wf => let r := add e i inst wf; (r.1, some r.2)
+  | .add i inst wf disk => let r := add e i inst wf disk; (r.1, some r.2)
   | .cmd i c wf => let r := sendCommand e i c wf; (r.1, some r.2)
   | .get i => let r := getLatest e i; (r.1, some r.2)
   | .snap i wf => let r := updateSnapshot e i wf; (r.1, some r.2)
@@ -219,7 +227,7 @@ def SafeRun {T : WalT} (e : Ent T) : List (Op T) → Prop
   | op :: rest =>
     (match op with
       | .snap i _ => othersCurrent e i
-      | .add _ _ _ => Absent e
+      | .add _ _ _ _ => Absent e
       | _ => True) ∧ SafeRun (step e op).1 rest
 
 end KM.ES.Wal
